@@ -23,6 +23,12 @@ enum Case {
     Swap { height: u64, with: &'static str },
     /// block 0 is not the coin's genesis
     WrongGenesis { coin: &'static str },
+    /// several blocks of a 5-block chain differ from what the index describes at once. Per height 1..=4:
+    /// 0 intact; 1 resealed (nonce changed: self-consistent, but its hash is no longer the indexed one); 2 prev-hash field
+    /// rewritten to the hash of the block STORED at the preceding height; 3 both. The index still describes the original chain.
+    /// By the statement the run fails at the first processed height whose prev-hash field is not the INDEXED hash of the
+    /// preceding height, and passes if there is none (a resealed block alone is consistent).
+    Multi { kinds: [u8; 4], start: Option<u64> },
 }
 
 fn chain_with(coin: &'static Coin, txs_per_block: usize, n_blocks: usize) -> ChainBuilder {
@@ -169,7 +175,16 @@ pub fn run() -> Report {
     for c in COINS.iter() {
         cases.push(Case::WrongGenesis { coin: c.name });
     }
-    rep.rule = "must pass: genesis,B(k),B(1) for k in 1..17,31,32,33,64,65 (every merkle-tree shape with an odd level up to depth 6) on bitcoin, k in {1,2,3,5} x --start {0,1,2} on all 8 coins, AuxPoW chains, sparse indexes at heights up to 2^40 with --start (pass, and fail with a flipped prev field); must fail at that height: every single-bit flip of prev-hash field, merkle field and tx bytes of every block of 4-block chains with 1/2/3 txs per block, prev-field flips of the first processed block under --start, block swaps, wrong block 0 for 8 coins; non-trivial = distinct case (pass cases: exit 0 with model-equal output; fail cases: corrupted byte inside the processed range)".into();
+    // all 4^4 combinations of per-block deviations, whole chain; --start 2 and 3 on those that deviate at or after the start
+    for code in 0..256u32 {
+        let kinds = [(code & 3) as u8, ((code >> 2) & 3) as u8, ((code >> 4) & 3) as u8, ((code >> 6) & 3) as u8];
+        cases.push(Case::Multi { kinds, start: None });
+        if thorough || code % 3 == 0 {
+            cases.push(Case::Multi { kinds, start: Some(2) });
+            cases.push(Case::Multi { kinds, start: Some(3) });
+        }
+    }
+    rep.rule = "must pass: genesis,B(k),B(1) for k in 1..17,31,32,33,64,65 (every merkle-tree shape with an odd level up to depth 6) on bitcoin, k in {1,2,3,5} x --start {0,1,2} on all 8 coins, AuxPoW chains, sparse indexes at heights up to 2^40 with --start (pass, and fail with a flipped prev field); must fail at that height: every single-bit flip of prev-hash field, merkle field and tx bytes of every block of 4-block chains with 1/2/3 txs per block, prev-field flips of the first processed block under --start, block swaps, wrong block 0 for 8 coins; all 4^4 combinations of {intact, resealed, prev-field rewritten to the stored predecessor's hash, both} over heights 1..4 (x --start) judged by the statement's rule (fail at the first processed height whose prev field is not the indexed hash of the preceding height, else pass); non-trivial = distinct case (pass cases: exit 0 with model-equal output; fail cases: corrupted byte inside the processed range)".into();
     rep.bound = json!({"cases": cases.len(), "flip_chains": "4 blocks x {1,2,3} txs", "flip_density": "every bit", "txs_per_block": if thorough { "1,2,3,4,5,8" } else { "1,2,3" }});
     rep.not_covered = vec!["multi-bit corruptions other than block swaps".into(), "witness bytes / marker / flag (not txid-covered; don't-care)".into()];
     let root = refmodel::world::scratch_root();
@@ -342,6 +357,56 @@ pub fn run() -> Report {
                     acc.count("swap", 1);
                     if let Some((sig, detail)) = judge_fail(&r, *height) {
                         acc.disagree(&format!("{}:swap", sig), format!("{:?}: {}", c, detail), replay_case(&world, &spec, json!({"must": "fail", "height": height}), &r, &wk.dir));
+                    }
+                }
+                Case::Multi { kinds, start } => {
+                    let btc = coin("bitcoin");
+                    let cb = chain_with(btc, 2, 5);
+                    let mut world = World::new(btc);
+                    let mut stored_prev_hash = cb.blocks[0].hash();
+                    world.add_block(0, 0, &cb.blocks[0]);
+                    // first processed height whose on-disk prev field differs from the indexed hash of the preceding height
+                    let mut first_bad: Option<u64> = None;
+                    let s0 = start.unwrap_or(0);
+                    for h in 1..=4usize {
+                        let orig = &cb.blocks[h];
+                        let mut b = orig.clone();
+                        let k = kinds[h - 1];
+                        if k & 2 != 0 {
+                            b.header.prev = stored_prev_hash;
+                        }
+                        if k & 1 != 0 {
+                            b.header.nonce = b.header.nonce.wrapping_add(0x1357);
+                        }
+                        if b.header.prev != cb.blocks[h - 1].hash() && h as u64 >= s0.max(1) && first_bad.is_none() {
+                            first_bad = Some(h as u64);
+                        }
+                        stored_prev_hash = b.hash();
+                        // stored bytes = the deviating block; index record = the original block's hash and header
+                        let mut rec = world.add_block((h % 2) as u64, h as u64, &b);
+                        world.index_ops.pop();
+                        rec.hash = orig.hash();
+                        rec.header = orig.header.ser();
+                        world.put_rec(&rec);
+                    }
+                    let spec = RunSpec::new("bitcoin", "csvdump").verify(true).range(*start, None);
+                    let r = match wk.world_run(&world, &spec) {
+                        Ok(r) => r,
+                        Err(m) => return acc.machinery(m),
+                    };
+                    match first_bad {
+                        Some(h) => {
+                            acc.count("multi:must-fail", 1);
+                            if let Some((sig, detail)) = judge_fail(&r, h) {
+                                acc.disagree(&format!("{}:multi", sig), format!("{:?}: {}", c, detail), replay_case(&world, &spec, json!({"must": "fail", "height": h}), &r, &wk.dir));
+                            }
+                        }
+                        None => {
+                            acc.count("multi:must-pass", 1);
+                            if r.code != Some(0) {
+                                acc.disagree("consistent-chain-rejected:multi", format!("{:?}: every processed block has the merkle root of its txs and the indexed hash of the preceding height as prev-hash, but exit {:?}: {}", c, r.code, r.stderr.lines().take(3).collect::<Vec<_>>().join(" | ")), replay_case(&world, &spec, json!({"must": "pass"}), &r, &wk.dir));
+                            }
+                        }
                     }
                 }
                 Case::WrongGenesis { coin: cname } => {
